@@ -15,6 +15,12 @@ CLAIMED = {
             "property is universally quantified over continuous scores and finite label/frame choices."),
     "C02": ("4 C02", "Stepwise-greedy characterisation and the no-blocking-pair formula of the statement are decided by z3 "
             "for every feasible path of get_object_results within the same bounds as C01, ties included."),
+    "C14": ("4 C14", "LabelConverter is executed on a symbolic ASCII name of every length up to the bound: totality, case "
+            "insensitivity, registry-faithful lookup, the canonical-name law, documented names and merge consistency are "
+            "decided by z3 for all strings of those lengths, all families/tasks/merge settings."),
+    "C20": ("4 C20", "Each of the seven string parsers, Shape(str) and TransformKey(str) is executed on a symbolic ASCII string "
+            "of every length up to the bound; z3 decides for every member that its own value parses to it and that "
+            "non-members are rejected or mapped to the documented fallback."),
 }
 NA = {
     "C16": "dataset loading goes through the nuScenes devkit and file I/O; a symbolic stand-in for the devkit would be the "
